@@ -264,8 +264,8 @@ def gen_case(rng, k):
                 L.append("  -m0 %s" % fmt(rng.uniform(0.0001, 0.001)))
                 L.append("  -parms %s %s" % (fmt(rng.uniform(1e-6, 1e-4)), fmt(rng.uniform(0, 1))))
             L.append(" -steps %s" % " ".join(fmt(rng.choice([10, 100, 1000])) for _ in range(rng.choice([1, 2, 7]))))
-            if rng.random() < 0.3:
-                L.append(" -cvode true")
+            if rng.random() < 0.3 and not any(x.startswith("SURFACE %d" % n) for x in L):
+                L.append(" -cvode true")        # (with a surface in the same cell CVODE needs minutes)
             if rng.random() < 0.3:
                 L.append(" -runge_kutta %d" % rng.choice([1, 2, 3, 6]))
     if rng.random() < 0.5 and nsol >= 2:
@@ -580,7 +580,39 @@ def job(cid, db, text, flags=()):
     return {"id": cid, "db": db, "text": text, "flags": list(flags)}
 
 
-def run_round_trip(ctx, cases, static_defects, kw2cls, timeout_each=60):
+def run_jobs(jobs, timeout_each=30, workers=6):
+    """Like vlib.run_inputs (same driver harness/runsel.cpp, same result dicts) but ONE process per job, so that a run
+    that does not return costs exactly its own time limit (vlib's batches share a limit)."""
+    import concurrent.futures as cf
+    exe = vlib.build_harness("runsel", ["runsel.cpp"])
+    res = {}
+    if not jobs:
+        return res
+    with vlib.scratch("c10run") as d:
+        def one(k):
+            j = jobs[k]
+            wd = os.path.join(d, "w%05d" % k)
+            os.makedirs(wd)
+            inp = os.path.join(wd, "in.pqi")
+            open(inp, "w").write(j["text"])
+            db = j["db"] if os.path.isabs(j["db"]) else os.path.join(vlib.DB, j["db"])
+            jf = os.path.join(wd, "jobs.tsv")
+            open(jf, "w").write("%d\t%s\t%s\t%s\n" % (k, db, inp, ",".join(j.get("flags", []))))
+            rc, so, se = vlib.sh([exe, jf], cwd=wd, timeout=timeout_each)
+            for line in so.split("\n"):
+                if line.startswith("{"):
+                    try:
+                        return json.loads(line)
+                    except Exception:
+                        pass
+            return {"job": str(k), "timeout": rc == 124, "crash": rc != 124, "rc_proc": rc, "stderr": se[-1500:]}
+        with cf.ThreadPoolExecutor(max_workers=workers) as ex:
+            for k, r in enumerate(ex.map(one, range(len(jobs)))):
+                res[jobs[k]["id"]] = r
+    return res
+
+
+def run_round_trip(ctx, cases, static_defects, kw2cls, timeout_each=25):
     """returns list of findings: dict(key, what, replay)"""
     findings = []
     stats = {"cases": 0, "skipped_error": 0, "skipped_timeout": 0, "d1_eq_d2": 0, "d1_ne_d2_explained": 0,
@@ -589,7 +621,7 @@ def run_round_trip(ctx, cases, static_defects, kw2cls, timeout_each=60):
     # round A: original + dump
     import time
     t0 = time.time()
-    A = vlib.run_inputs([job(c.id, c.db, c.text + "\nEND\nDUMP\n -all\nEND\n", ["dump"]) for c in cases], timeout_each, workers)
+    A = run_jobs([job(c.id, c.db, c.text + "\nEND\nDUMP\n -all\nEND\n", ["dump"]) for c in cases], timeout_each, workers)
     vlib.log("[C10] round A: %d jobs %.1fs" % (len(cases), time.time() - t0))
     live = []
     for c in cases:
@@ -621,7 +653,7 @@ def run_round_trip(ctx, cases, static_defects, kw2cls, timeout_each=60):
             jobs.append(job(c.id + "/Mo", c.db, c.text + "\nEND\n" + fo))
             jobs.append(job(c.id + "/Mr", c.db, c.text + "\nEND\n" + pert + "END\n" + restore + "END\n" + fo))
     t0 = time.time()
-    B = vlib.run_inputs(jobs, timeout_each, workers)
+    B = run_jobs(jobs, timeout_each, workers)
     vlib.log("[C10] round B: %d jobs %.1fs" % (len(jobs), time.time() - t0))
     jobs = []
     for c in live:
@@ -630,12 +662,14 @@ def run_round_trip(ctx, cases, static_defects, kw2cls, timeout_each=60):
         if rb.get("rc") == 0 and c.d2:
             jobs.append(job(c.id + "/C", c.db, c.text + "\nEND\nDELETE\n -all\nEND\n" + c.d2 + "\nEND\nDUMP\n -all\nEND\n", ["dump"]))
     t0 = time.time()
-    Cc = vlib.run_inputs(jobs, timeout_each, workers)
+    Cc = run_jobs(jobs, timeout_each, workers)
     vlib.log("[C10] round C: %d jobs %.1fs" % (len(jobs), time.time() - t0))
 
     t0 = time.time()
-    BIN = run_bin(live, timeout_each, workers)
-    vlib.log("[C10] in-memory copies (storage bin, serializer): %d cases %.1fs" % (len(live), time.time() - t0))
+    # (only where the follow-up returns on the original state at all)
+    binc = [c for c in live if (B.get(c.id + "/Fo") or {}).get("rc") == 0]
+    BIN = run_bin(binc, timeout_each, workers)
+    vlib.log("[C10] in-memory copies (storage bin, serializer): %d cases %.1fs" % (len(binc), time.time() - t0))
 
     opt_member = {}
     try:
@@ -846,7 +880,7 @@ def run_round_trip(ctx, cases, static_defects, kw2cls, timeout_each=60):
                 for nd in (13, 12):
                     dj.append(job("diag%d/%d" % (k, nd), p["c"].db, p["text"](nd)))
         t0 = time.time()
-        D = vlib.run_inputs(dj, timeout_each, workers)
+        D = run_jobs(dj, timeout_each, workers)
         vlib.log("[C10] diagnostics: %d jobs %.1fs" % (len(dj), time.time() - t0))
         for k, p in enumerate(pending):
             i, h, a, b = p["d"]
@@ -937,41 +971,23 @@ def run_bin(cases, timeout_each=60, workers=6):
                 fn[nm] = os.path.join(d, "%s%04d.pqi" % (nm, k))
                 open(fn[nm], "w").write(txt + "\n")
             rows.append((c, "%d\t%s\t%s\t%s\t%s\n" % (k, c.db, fn["full"], fn["defs"], fn["follow"])))
-        nb = max(1, min(workers * 2, len(rows)))
-        batches = [rows[i::nb] for i in range(nb)]
-
-        def run_batch(bi, batch):
-            res = {}
-            todo = list(batch)
-            attempt = 0
-            while todo:
-                attempt += 1
-                wd = os.path.join(d, "w%d_%d" % (bi, attempt))
-                os.makedirs(wd, exist_ok=True)
-                jf = os.path.join(wd, "jobs.tsv")
-                open(jf, "w").write("".join(r for _, r in todo))
-                rc, so, se = vlib.sh([exe, jf], cwd=wd, timeout=timeout_each * len(todo) + 20)
-                done = set()
-                for line in so.split("\n"):
-                    if line.startswith("{"):
-                        try:
-                            r = json.loads(line)
-                        except Exception:
-                            continue
-                        res[int(r["job"])] = r
-                        done.add(int(r["job"]))
-                rest = [t for t in todo if int(t[1].split("\t")[0]) not in done]
-                if not rest:
-                    break
-                bad = int(rest[0][1].split("\t")[0])
-                res[bad] = {"job": bad, "timeout": rc == 124, "crash": rc != 124, "stderr": se[-1000:]}
-                todo = rest[1:]
-            return res
+        def one(k):
+            c, row = rows[k]
+            wd = os.path.join(d, "w%04d" % k)
+            os.makedirs(wd)
+            jf = os.path.join(wd, "jobs.tsv")
+            open(jf, "w").write(row)
+            rc, so, se = vlib.sh([exe, jf], cwd=wd, timeout=timeout_each * 2)
+            for line in so.split("\n"):
+                if line.startswith("{"):
+                    try:
+                        return json.loads(line)
+                    except Exception:
+                        pass
+            return {"job": k, "timeout": rc == 124, "crash": rc != 124, "stderr": se[-1000:]}
         with cf.ThreadPoolExecutor(max_workers=workers) as ex:
-            futs = [ex.submit(run_batch, bi, b) for bi, b in enumerate(batches) if b]
-            for f in futs:
-                for k, r in f.result().items():
-                    out[cases[k].id] = r
+            for k, r in enumerate(ex.map(one, range(len(rows)))):
+                out[cases[k].id] = r
     return out
 
 
@@ -1025,8 +1041,13 @@ def run(ctx):
     ctx.checker_cmd = "make -C /verif/coq -k Props/Properties_C10.vo"
     if ctx.replay:
         return replay(ctx)
+    import time
+    t0 = time.time()
     ok = vlib.coq_stage(ctx, "Props/Properties_C10.vo", gen=gen)
+    vlib.log("[C10] translator + Coq build (includes waiting for the shared coq lock) %.1fs" % (time.time() - t0))
+    t0 = time.time()
     rep = static_report()
+    vlib.log("[C10] static report %.1fs" % (time.time() - t0))
     static_defects = []
     if rep is None:
         ctx.obligation("static-report(all_defects by vm_compute)", False, "could not evaluate the generated schemas in Coq")
